@@ -2,8 +2,13 @@ package valtab
 
 import (
 	"fmt"
+	"go/types"
 	"sort"
 	"strings"
+
+	"calcsa/absint"
+
+	"golang.org/x/tools/go/ssa"
 )
 
 // The reference table: the documented value algebra (Readme "Types", the
@@ -378,6 +383,7 @@ func (t *tab) compare(tb map[Cell][]Outcome, order []Cell) {
 	}
 	t.symmetry(tb)
 	t.shiftRange(tb)
+	t.renderTotal()
 }
 
 func orAlways(k string) string {
@@ -504,6 +510,56 @@ func (t *tab) shiftRange(tb map[Cell][]Outcome) {
 			t.s.OK("A5", key, pos, "a path reports an error for some counts")
 		} else {
 			t.s.Bad("A5", key, pos, "no path of int "+op+" int returns an error: negative and >= 64 shift counts silently give 0 / -1 instead of the error the property asks for", outStrings(outs)...)
+		}
+	}
+}
+
+// renderTotal (A7): String / Display / Abbrev return for every kind of value.
+func (t *tab) renderTotal() {
+	for _, mn := range []string{"String", "Display", "Abbrev"} {
+		fn := t.p.Method("types/value", "Type", mn)
+		if fn == nil {
+			t.s.Unk("A7", "value.Type."+mn, "-", "method not found")
+			continue
+		}
+		pos := t.p.Pos(fn.Pos())
+		for k := int64(0); k < 7; k++ {
+			key := fmt.Sprintf("value.%s(%s) / returns", mn, t.kname[k])
+			bad := ""
+			o := &absint.Oracle{}
+			for n := 0; n < 200; n++ {
+				in := absint.NewInterp(t.p.SSA, o)
+				loops := map[string]int{}
+				in.Hooks.Call = func(in *absint.Interp, callee *ssa.Function, a []absint.Val, site ssa.Instruction) (absint.Val, bool) {
+					if callee.Pkg != nil && (callee.Pkg.Pkg.Path() == "fmt" || callee.Pkg.Pkg.Path() == "strconv") {
+						return absint.NewVar(callee.Name(), types.Typ[types.String]), true
+					}
+					return nil, false
+				}
+				in.Hooks.Branch = func(in *absint.Interp, cond absint.Val, site ssa.Instruction) (bool, bool) {
+					k := absint.Key(cond)
+					if strings.Contains(k, "len(") && strings.HasPrefix(k, "<(") {
+						p := fmt.Sprint(site.Pos())
+						loops[p]++
+						if loops[p] > 2 {
+							return false, true
+						}
+					}
+					return false, false
+				}
+				_, end := in.Run(fn, []absint.Val{t.mkVal("a", k)})
+				if end != nil {
+					bad = end.Error()
+				}
+				if !o.Next() {
+					break
+				}
+			}
+			if bad == "" {
+				t.s.OK("A7", key, pos, "renders without aborting")
+			} else {
+				t.s.Bad("A7", key, pos, "rendering a value of this kind can abort the interpreter: "+bad)
+			}
 		}
 	}
 }
